@@ -316,6 +316,49 @@ def g5_coalition(rng, big=False):
     return make_valid(s, rng)
 
 
+def g5b_two_surpluses(rng, big=False):
+    """
+    a coalition owed k+1 seats whose two (or k) strong members pass the quota in the same round while a weak member needs
+    ALL their surpluses to stay ahead of an outsider: weak + one surplus < outsider <= weak + all surpluses
+    """
+    k = rng.choice([2, 2, 3])
+    nc = rng.randint(k + 2, k + 4)
+    cands = list(range(1, nc + 1))
+    order = rng.sample(cands, nc)
+    strong, weak, outs = order[:k], order[k], order[k + 1:]
+    ns = k + 1
+    w = rng.randint(1, 4)
+    sp = rng.randint(2, 6)
+    o = rng.randint(w + sp, w + k * sp)
+    q = (k * sp + w + o + len(outs) - 1) // 2 + rng.choice([0, 0, 1, -1])
+    x = max(2, q + sp)
+    S = strong + [weak]
+    lines = []
+    for c in strong:
+        others = [y for y in strong if y != c]
+        rng.shuffle(others)
+        lines.append((x, [c] + others + [weak]))
+    lines.append((w, [weak] + rng.sample(strong, len(strong))))
+    lines.append((o, [outs[0]]))
+    for c in outs[1:]:
+        lines.append((1, [c]))
+    s = base(nc, ns, lines, rng)
+    s['family'] = 'G5'
+    s['coalition'] = sorted(S)
+    return make_valid(s, rng)
+
+
+def g11_mid_electorate(rng, big=False):
+    "a few weighted lines adding up to a few thousand ballots: Meek iterations stall on rounding noise near omega"
+    nc = rng.randint(4, 8)
+    ns = rng.randint(1, nc - 1)
+    cands = list(range(1, nc + 1))
+    lines = [(rng.randint(40, 1800), rand_ranking(rng, cands, 1, nc)) for _ in range(rng.randint(6, 10))]
+    s = base(nc, ns, lines, rng)
+    s['family'] = 'G11'
+    return make_valid(s, rng)
+
+
 def g6_degenerate(rng, big=False):
     nc = rng.randint(2, 9 if big else 7)
     cands = list(range(1, nc + 1))
@@ -491,7 +534,7 @@ def g9_real_files(rng, big=False, repo=None):
 
 FAMILIES = {
     'G1': g1_uniform, 'G2': g2_ties, 'G3': g3_quota_boundary, 'G4': g4_chains, 'G5': g5_coalition,
-    'G6': g6_degenerate, 'G7': g7_withdrawn_undeclared, 'G8': g8_equal_ranks, 'G8b': g8b_quota_creep, 'G9': g9_real_files,
+    'G5b': g5b_two_surpluses, 'G11': g11_mid_electorate, 'G6': g6_degenerate, 'G7': g7_withdrawn_undeclared, 'G8': g8_equal_ranks, 'G8b': g8b_quota_creep, 'G9': g9_real_files,
     'G10': g10_sure_losers,
 }
 
